@@ -3,4 +3,220 @@ import PM.Step
 import PM.Transform
 import Proofs.StepToks
 namespace PM
+
+/-! ### slices -/
+
+/-- a well-formed slice has exactly `size` tokens -/
+theorem Slice.toks_length_int (sl : Slice) (hwf : sl.wf = true) : (sl.toks.length : Int) = sl.size := by
+  simp only [Slice.wf, Bool.and_eq_true, decide_eq_true_eq] at hwf
+  have hs := spine_sum_le sl.content
+  simp only [Slice.toks, List.length_take, List.length_drop, ftoks_length, Slice.size]
+  omega
+
+/-! ### what a successful replace step gives (no black box needed) -/
+
+theorem apply_replace_facts (S : Schema) (doc doc' : Node) (f t : Nat) (sl : Slice) (st : Bool)
+    (h : S.apply (.replace f t sl st) doc = .ok doc') :
+    ftoks doc'.kids = (ftoks doc.kids).take f ++ sl.toks ++ (ftoks doc.kids).drop t ∧
+    f ≤ t ∧ t ≤ fsize doc.kids ∧ sl.wf = true := by
+  have hr : S.replace doc f t sl = .ok doc' := by
+    simp only [Schema.apply, Schema.fromReplace] at h
+    split at h
+    · split at h
+      · simp at h
+      · simp at h
+      · exact h
+    · exact h
+  unfold Schema.replace at hr
+  cases doc with
+  | text s m => simp at hr
+  | leaf ty a m => simp at hr
+  | elem ty a m kids =>
+    simp only at hr
+    cases hk : replaceKids S ty kids f t sl with
+    | error e => rw [hk] at hr; simp [Except.map] at hr
+    | ok kids' =>
+      rw [hk] at hr
+      simp only [Except.map, Except.ok.injEq] at hr
+      subst hr
+      have h1 := replaceKids_toks S ty kids f t sl kids' hk
+      have h2 := replaceKids_guards S ty kids f t sl kids' hk
+      exact ⟨by simpa [Node.kids] using h1, h2.1, by simpa [Node.kids] using h2.2.1, h2.2.2⟩
+
+/-! ### reading a spliced list -/
+
+theorem splice_get_lt {α} (l m r : List α) (f i : Nat) (hi : i < f) (hf : f ≤ l.length) :
+    (l.take f ++ m ++ r)[i]? = l[i]? := by
+  rw [List.append_assoc, List.getElem?_append_left (by simp; omega)]
+  simp [hi]
+
+theorem splice_get_ge {α} (l m : List α) (f t i : Nat) (hf : f ≤ l.length) (ht : t ≤ i) :
+    (l.take f ++ m ++ l.drop t)[f + m.length + (i - t)]? = l[i]? := by
+  rw [List.getElem?_append_right (by simp; omega)]
+  simp only [List.length_append, List.length_take, List.getElem?_drop]
+  congr 1
+  omega
+
+/-- the five-part splice of a replace-around step -/
+theorem around_get_lt {α} (l s : List α) (f gf gt t ins i : Nat) (hf : f ≤ l.length) (hi : i < f) :
+    (l.take f ++ s.take ins ++ ((l.drop gf).take (gt - gf)) ++ s.drop ins ++ l.drop t)[i]? = l[i]? := by
+  rw [List.append_assoc, List.append_assoc, List.append_assoc,
+    List.getElem?_append_left (by simp; omega)]
+  simp [hi]
+
+theorem around_get_mid {α} (l s : List α) (f gf gt t ins i : Nat) (hf : f ≤ l.length)
+    (hins : ins ≤ s.length) (hgt : gt ≤ l.length) (h1 : gf ≤ i) (h2 : i < gt) :
+    (l.take f ++ s.take ins ++ ((l.drop gf).take (gt - gf)) ++ s.drop ins ++ l.drop t)[f + ins + (i - gf)]?
+      = l[i]? := by
+  rw [List.getElem?_append_left (by simp; omega), List.getElem?_append_left (by simp; omega),
+    List.getElem?_append_right (by simp; omega)]
+  simp only [List.length_append, List.length_take, List.getElem?_take, List.getElem?_drop]
+  rw [if_pos (by omega)]
+  congr 1
+  omega
+
+theorem around_get_ge {α} (l s : List α) (f gf gt t ins i : Nat) (hf : f ≤ l.length)
+    (hins : ins ≤ s.length) (hg : gf ≤ gt) (hgt : gt ≤ l.length) (h1 : t ≤ i) :
+    (l.take f ++ s.take ins ++ ((l.drop gf).take (gt - gf)) ++ s.drop ins ++ l.drop t)[f + s.length + (gt - gf) + (i - t)]?
+      = l[i]? := by
+  rw [List.getElem?_append_right (by simp; omega)]
+  simp only [List.length_append, List.length_take, List.length_drop, List.getElem?_drop]
+  congr 1
+  omega
+/-! ### the maps of the replace steps in closed form -/
+
+theorem mapAux_nil_pos (pos a diff : Int) (idx : Nat) : (mapAux false pos a [] diff idx).pos = pos + diff := by
+  simp [mapAux]
+
+theorem mapAux_cons_lt (pos a : Int) (r : Range) (rest : List Range) (diff : Int) (idx : Nat)
+    (h : pos < r.1) : (mapAux false pos a (r :: rest) diff idx).pos = pos + diff := by
+  simp only [mapAux, Bool.false_eq_true, if_false, Int.sub_zero]
+  rw [if_pos (by omega)]
+
+theorem mapAux_cons_gt (pos a : Int) (r : Range) (rest : List Range) (diff : Int) (idx : Nat)
+    (h : r.1 + r.2.1 < pos) (h0 : 0 ≤ r.2.1) :
+    mapAux false pos a (r :: rest) diff idx = mapAux false pos a rest (diff + r.2.2 - r.2.1) (idx + 1) := by
+  simp only [mapAux, Range.oldSize, Range.newSize, Bool.false_eq_true, if_false, Int.sub_zero]
+  rw [if_neg (by omega), if_neg (by omega)]
+
+/-- at the end of a range, association side `1` maps to the end of the inserted content (also for an
+    empty old range) -/
+theorem mapAux_cons_end (pos : Int) (r : Range) (rest : List Range) (diff : Int) (idx : Nat)
+    (h : pos = r.1 + r.2.1) (h0 : 0 ≤ r.2.1) :
+    (mapAux false pos 1 (r :: rest) diff idx).pos = r.1 + diff + r.2.2 := by
+  simp only [mapAux, Range.oldSize, Range.newSize, Bool.false_eq_true, if_false, Int.sub_zero]
+  rw [if_neg (by omega), if_pos (by omega)]
+  simp only
+  by_cases hz : r.2.1 = 0
+  · simp [hz]
+  · rw [if_neg hz, if_neg (by omega)]
+
+theorem map_one_lt (f o n i a : Int) (h : i < f) : (StepMap.mk [(f, o, n)] false).map i a = i := by
+  simp only [StepMap.map, StepMap.mapResult]
+  rw [mapAux_cons_lt _ _ _ _ _ _ h]; omega
+
+theorem map_one_ge (f o n i : Int) (ho : 0 ≤ o) (h : f + o ≤ i) :
+    (StepMap.mk [(f, o, n)] false).map i 1 = i + (n - o) := by
+  simp only [StepMap.map, StepMap.mapResult]
+  by_cases he : i = f + o
+  · rw [mapAux_cons_end _ _ _ _ _ he ho]; simp only; omega
+  · rw [mapAux_cons_gt _ _ _ _ _ _ (by simp only; omega) ho, mapAux_nil_pos]; simp only; omega
+
+theorem map_two_lt (f o n g o' n' i a : Int) (h : i < f) :
+    (StepMap.mk [(f, o, n), (g, o', n')] false).map i a = i := by
+  simp only [StepMap.map, StepMap.mapResult]
+  rw [mapAux_cons_lt _ _ _ _ _ _ h]; omega
+
+/-- between the two ranges (the preserved gap) -/
+theorem map_two_mid (f o n g o' n' i : Int) (ho : 0 ≤ o) (h : f + o ≤ i) (hg : i < g) :
+    (StepMap.mk [(f, o, n), (g, o', n')] false).map i 1 = i + (n - o) := by
+  simp only [StepMap.map, StepMap.mapResult]
+  by_cases he : i = f + o
+  · rw [mapAux_cons_end _ _ _ _ _ he ho]; simp only; omega
+  · rw [mapAux_cons_gt _ _ _ _ _ _ (by simp only; omega) ho, mapAux_cons_lt _ _ _ _ _ _ hg]
+    simp only; omega
+
+/-- after both ranges; `f + o < i` excludes the one degenerate case (empty gap ending the step) -/
+theorem map_two_ge (f o n g o' n' i : Int) (ho : 0 ≤ o) (ho' : 0 ≤ o') (h : f + o < i) (hg : g + o' ≤ i) :
+    (StepMap.mk [(f, o, n), (g, o', n')] false).map i 1 = i + (n - o) + (n' - o') := by
+  simp only [StepMap.map, StepMap.mapResult]
+  rw [mapAux_cons_gt _ _ _ _ _ _ (by simp only; omega) ho]
+  by_cases he : i = g + o'
+  · rw [mapAux_cons_end _ _ _ _ _ he ho']; simp only; omega
+  · rw [mapAux_cons_gt _ _ _ _ _ _ (by simp only; omega) ho', mapAux_nil_pos]; simp only; omega
+
+/-- exactly at the end of the first range -/
+theorem map_two_end (f o n g o' n' i : Int) (ho : 0 ≤ o) (h : i = f + o) :
+    (StepMap.mk [(f, o, n), (g, o', n')] false).map i 1 = f + n := by
+  simp only [StepMap.map, StepMap.mapResult]
+  rw [mapAux_cons_end _ _ _ _ _ h ho]; simp only; omega
+
+theorem map_empty (p a : Int) : (StepMap.mk [] false).map p a = p := by
+  simp [StepMap.map, StepMap.mapResult, mapAux]
+
+/-! ### one changed token -/
+
+/-- the take/drop/shape description of a one-token change cannot hide a dropped final close token:
+    both token lists are balanced -/
+theorem one_changed_length (l l' : List Tok) (pos : Nat) (hp : pos < l.length)
+    (hb : balance l = 0) (hb' : balance l' = 0)
+    (ht : l'.take pos = l.take pos) (hd : l'.drop (pos + 1) = l.drop (pos + 1))
+    (hs : (l'.getD pos Tok.cl).shape = (l.getD pos Tok.cl).shape) :
+    l'.length = l.length := by
+  have h1 := congrArg List.length ht
+  have h2 := congrArg List.length hd
+  simp only [List.length_take, List.length_drop] at h1 h2
+  by_cases hlt : pos < l'.length
+  · omega
+  · exfalso
+    have hl' : l' = l.take pos := by rw [← ht, List.take_of_length_le (by omega)]
+    have hdl : l.drop (pos + 1) = [] := by rw [← hd]; exact List.drop_eq_nil_of_le (by omega)
+    have e1 : l = l.take pos ++ l[pos] :: l.drop (pos + 1) := by simp
+    have hcl : l[pos] = Tok.cl := by
+      have : (l[pos]).shape = Shape.cl := by
+        simpa [List.getD, List.getElem?_eq_getElem hp, List.getElem?_eq_none (show l'.length ≤ pos by omega),
+          Tok.shape] using hs.symm
+      cases hx : l[pos] <;> simp [hx, Tok.shape] at this ⊢
+    rw [hdl, hcl, ← hl'] at e1
+    rw [e1] at hb
+    simp [Tok.delta, hb'] at hb
+
+theorem shape_of_one_changed (l l' : List Tok) (pos : Nat) (hp : pos < l.length)
+    (hlen : l'.length = l.length)
+    (ht : l'.take pos = l.take pos) (hd : l'.drop (pos + 1) = l.drop (pos + 1))
+    (hs : (l'.getD pos Tok.cl).shape = (l.getD pos Tok.cl).shape) :
+    l'.map Tok.shape = l.map Tok.shape := by
+  have e1 : l = l.take pos ++ l[pos] :: l.drop (pos + 1) := by simp
+  have e2 : l' = l'.take pos ++ l'[pos]'(by omega) :: l'.drop (pos + 1) := by simp
+  have hs' : (l'[pos]'(by omega)).shape = (l[pos]).shape := by
+    simpa [List.getD, List.getElem?_eq_getElem hp, List.getElem?_eq_getElem (show pos < l'.length by omega)] using hs
+  have m1 : l.map Tok.shape
+      = (l.take pos).map Tok.shape ++ (l[pos]).shape :: (l.drop (pos + 1)).map Tok.shape := by
+    conv => lhs; rw [e1]
+    simp only [List.map_append, List.map_cons]
+  have m2 : l'.map Tok.shape
+      = (l'.take pos).map Tok.shape ++ (l'[pos]'(by omega)).shape :: (l'.drop (pos + 1)).map Tok.shape := by
+    conv => lhs; rw [e2]
+    simp only [List.map_append, List.map_cons]
+  rw [m1, m2, ht, hd, hs']
+
+/-! ### transform bookkeeping -/
+
+theorem Tr.maybeStep_maps (S : Schema) (tr : Tr) (st : Step)
+    (h : tr.maps = tr.steps.map Step.getMap) :
+    (tr.maybeStep S st).maps = (tr.maybeStep S st).steps.map Step.getMap := by
+  unfold Tr.maybeStep
+  split
+  · simp [Tr.addStep, h]
+  · exact h
+
+theorem Tr.run_maps (S : Schema) (sts : List Step) : ∀ tr : Tr,
+    tr.maps = tr.steps.map Step.getMap → (tr.run S sts).maps = (tr.run S sts).steps.map Step.getMap := by
+  induction sts with
+  | nil => intro tr h; simpa [Tr.run] using h
+  | cons st sts ih =>
+    intro tr h
+    have := ih (tr.maybeStep S st) (Tr.maybeStep_maps S tr st h)
+    simpa [Tr.run] using this
+
 end PM
